@@ -1,9 +1,12 @@
 package harness
 
 import (
+	"bytes"
 	"context"
+	"encoding/gob"
 	"errors"
 	"fmt"
+	"math"
 	"sort"
 	"strconv"
 	"strings"
@@ -182,6 +185,7 @@ type Rig struct {
 	// loader behaviour for the current op of a thread
 	loadPlan         map[int]string
 	stamp            int64
+	Saved            []byte
 	refreshChans     []refreshChan
 	bulkRefreshChans []bulkRefreshChan
 }
@@ -496,7 +500,18 @@ func keyList(s string) []int {
 //	all | keys | values | coldest | hottest
 //	runexec [n]
 func (r *Rig) Do(th int, op string) (res OpResult) {
-	f := strings.Fields(op)
+	var f []string
+	cur0 := vsched.CurID()
+	for _, tok := range strings.Fields(op) {
+		switch {
+		case strings.HasPrefix(tok, "ttl="):
+			r.ttl[cur0] = atoi64(tok[4:])
+		case strings.HasPrefix(tok, "rttl="):
+			r.rttl[cur0] = atoi64(tok[5:])
+		default:
+			f = append(f, tok)
+		}
+	}
 	res.Op = op
 	idx := r.opIndex[th]
 	r.opIndex[th] = idx + 1
@@ -663,7 +678,9 @@ func (r *Rig) Do(th int, op string) (res OpResult) {
 		}
 	case "adv":
 		vsched.EnvPoint()
-		r.Clock.now += atoi64(f[1])
+		if d := atoi64(f[1]); d > 0 && r.Clock.now <= math.MaxInt64-d {
+			r.Clock.now += d // a clock never runs backwards: an advance that would overflow is ignored
+		}
 	case "cleanup":
 		c.CleanUp()
 	case "setmax":
@@ -706,6 +723,29 @@ func (r *Rig) Do(th int, op string) (res OpResult) {
 		}
 	case "runexec":
 		res.Int = r.RunDeferred(arg(1, 0))
+	case "save":
+		var buf bytes.Buffer
+		if err := otter.SaveCacheTo(c, &buf); err != nil {
+			res.Err = err.Error()
+			break
+		}
+		r.Saved = buf.Bytes()
+		res.List = []int{}
+		dec := gob.NewDecoder(bytes.NewReader(r.Saved))
+		var max uint64
+		if err := dec.Decode(&max); err != nil {
+			res.Err = "decode maximum: " + err.Error()
+			break
+		}
+		res.U64 = max
+		for {
+			var e otter.Entry[int, int]
+			if err := dec.Decode(&e); err != nil {
+				break
+			}
+			res.List = append(res.List, e.Key)
+			res.Entries = append(res.Entries, e)
+		}
 	default:
 		panic("rig: unknown op " + op)
 	}
